@@ -1521,7 +1521,7 @@ fn gen_ring_case(r: &mut Rng, big: bool) -> Option<(IG, Lat, &'static str)> {
 pub fn gen_case(r: &mut Rng, big: bool) -> Option<(IG, Lat, &'static str)> {
     // rings of realistic length (a count just beyond a power of two, or 130-700 coordinates), as shell, as hole of a
     // big rectangle, or as member of a MultiPolygon after two short members
-    if r.chance(1, 400) {
+    if r.chance(1, 1000) {
         let n = crate::gen::long_count(r);
         let ring = crate::gen::long_ring(r, n);
         let (x0, x1) = (ring.iter().map(|p| p.0).min().unwrap(), ring.iter().map(|p| p.0).max().unwrap());
